@@ -205,6 +205,21 @@ class AppFactory(Factory):
 HOST_CHARS = 'abcdefghijklmnopqrstuvwxyz0123456789-'
 
 
+
+
+class Blackhole(Peer):
+    """a SOCKS listener that accepts the connection and never says anything"""
+
+    def connection_made(self, conn):
+        self.conn = conn
+
+    def data_received(self, data):
+        pass
+
+    def connection_lost(self, clean):
+        pass
+
+
 class SocksRun(object):
     def __init__(self, sim):
         self.sim = sim
@@ -527,6 +542,18 @@ class SocksRun(object):
                     self.conn.cut_at = cut[0]
                     self.conn.on_cut = lambda kind=cut[1]: self.do_fault(kind)
                 # the greeting was written during makeConnection, before the hook existed
+                if self.prop == 'C06' and not self.unencodable and ch.chance(1, 4, 'bystander'):
+                    # a second, overlapping request for the same host text with another port, through another SOCKS
+                    # listener that never answers: requests must not influence each other
+                    sim.probe('overlapping-request-same-host')
+                    sim.net.listen('tcp', 9150, lambda dest: Blackhole())
+                    ep2 = TCP4ClientEndpoint(sim.reactor, '127.0.0.1', 9150)
+                    other = (self.port + 363) % 65536 if self.req_type == 'CONNECT' else 443
+                    try:
+                        d2 = tsocks.TorSocksEndpoint(ep2, self.host, other).connect(AppFactory(self))
+                        d2.addErrback(lambda f: None)
+                    except Exception:
+                        pass
             if not sim.step():
                 break
             self.check_step()
